@@ -189,5 +189,6 @@ def run(cfg, R):
         n_eff = n0 + J0 * sel
         return [(f"{key_}: the first added point is always candidate 0", eq(cd.row_of(S1[n_eff, 0]), const(0, "Int")))]
 
-    R.check(name, tr, goals, twin_fn=(None if full else twins), validate=False,
+    # (ranking slips only show at points where two rankings differ: more hinted refutation rounds than the default 4)
+    R.check(name, tr, goals, twin_fn=(None if full else twins), validate=False, rounds=12,
             key_fn=lambda p_, g: f"{kind}:" + g.split(":", 1)[-1].strip().split(" (")[0][:60].rstrip("0123456789 ,()"))
